@@ -597,6 +597,28 @@ func MY() Mut {
 		w.data.Y = new(big.Int).Add(w.data.Y, big.NewInt(12345))
 	})
 }
+// MNonCanon: the same field values in another encoding - the next-D-H-key MPI with a leading zero byte and a length word one
+// higher (which = 0), or the ciphertext DATA length word unchanged but one zero byte appended to the revealed-keys field is
+// NOT covered (unauthenticated).  The authenticated bytes differ, so the MAC no longer matches: for the machine this is the
+// same as a damaged ciphertext (MFlipEnc): authentic fields, authenticator over other bytes.
+func MNonCanon() Mut {
+	return Mut{"MFlipEnc", "noncanonical-mpi", func(s *Sys, from, to int, m []byte) []byte {
+		w := parseWire(m)
+		if w.kind != 4 || len(w.body) < 13 {
+			return m
+		}
+		// body: flag(1) sender key id(4) recipient key id(4) y: MPI(len 4 + bytes) ...
+		l := int(w.body[9])<<24 | int(w.body[10])<<16 | int(w.body[11])<<8 | int(w.body[12])
+		if 13+l > len(w.body) {
+			return m
+		}
+		nb := append([]byte{}, w.body[:9]...)
+		nl := l + 1
+		nb = append(nb, byte(nl>>24), byte(nl>>16), byte(nl>>8), byte(nl), 0)
+		nb = append(nb, w.body[13:]...)
+		return encodeWire(w.hdr, nb)
+	}}
+}
 func MDropOldKeys() Mut {
 	return mutData("MDropOldKeys", "drop-revealed-keys", func(s *Sys, w *parsedWire) { w.data.OldMACKeys = nil })
 }
@@ -709,6 +731,27 @@ func MAkeDamage(field int) Mut {
 			}
 		}
 		return encodeWire(w.hdr, b)
+	}}
+}
+// MCommitHashLen: the D-H Commit's commitment field cut to (or extended to) n bytes, length word adjusted: a well-formed
+// message whose hash cannot match; for the machine the same as a damaged hash (MAkeDamage 1)
+func MCommitHashLen(n int) Mut {
+	return Mut{"(MAkeDamage 1)", fmt.Sprintf("commit-hash-len-%d", n), func(s *Sys, from, to int, m []byte) []byte {
+		w := parseWire(m)
+		if w.kind != 3 || w.typ != 0x02 {
+			return m
+		}
+		rest, enc, ok := otr3.ExtractData(w.body)
+		_, h, ok2 := otr3.ExtractData(rest)
+		if !ok || !ok2 {
+			return m
+		}
+		nh := append([]byte{}, h...)
+		for len(nh) < n {
+			nh = append(nh, 0x5a)
+		}
+		nh = nh[:n]
+		return encodeWire(w.hdr, otr3.AppendData(otr3.AppendData(nil, enc), nh))
 	}}
 }
 func MAkeGroup(v int) Mut {
